@@ -339,7 +339,7 @@ type pausePool struct {
 	gc    *xport.GateConn
 }
 
-func (p *pausePool) Get() interface{} { p.gc.Pause(); return p.inner.Get() }
+func (p *pausePool) Get() interface{}  { p.gc.Pause(); return p.inner.Get() }
 func (p *pausePool) Put(v interface{}) { p.gc.Pause(); p.inner.Put(v) }
 
 // lockedPool is a mutex-guarded LIFO pool for concurrent legs.
